@@ -83,11 +83,23 @@ def run(ck):
                              "without its row axis, and the batch's bases are then sliced letter by letter (IndexError in the gradient)", key="C07.R1|_shuffle_data|ndarray-indexed-by-tensor")
                 srcs = getattr(r, "sources", None)
                 want_n = 3 if c["bases"] else 2
-                if not isinstance(r, VUnknown) or srcs is None or len(srcs) != want_n or not all(isinstance(x, VList) for x in srcs):
+                if isinstance(r, VUnknown) and srcs is not None and len(srcs) == want_n and isinstance(srcs[1], VTens) and isinstance(srcs[0], VList) and not c["same"]:
+                    # the negative batches as one tensor: zip() walks its first axis, so it holds shape[0] batches of shape[1] rows
+                    # each - num_batches batches of neg_batch_size rows is what the epoch needs
+                    sh_ = [str(d) for d in (srcs[1].shape or ())]
+                    if len(sh_) == 3 and {sh_[0], sh_[1]} == {"num_batches", "nbs"}:
+                        ck.check(sh_[0] == "num_batches", "C07.R6", inst + ":num_batches negative batches of neg_batch_size rows", ssite,
+                                 "the negative batches are the slabs of a tensor of shape (%s): zip() walks its first axis, which gives %s batches of %s rows each, not num_batches batches of neg_batch_size rows"
+                                 % (", ".join(sh_), sh_[0], sh_[1]))
+                    elif len(sh_) == 3:
+                        ck.undecided("C07.R6", inst + ":num_batches negative batches of neg_batch_size rows", ssite, "the negative batches are one tensor of shape (%s): its first two sizes are not recognised" % ", ".join(sh_))
+                neg_slab = bool(isinstance(r, VUnknown) and srcs is not None and len(srcs) == want_n and isinstance(srcs[1], VTens) and not c["same"]
+                                and len(srcs[1].shape or ()) == 3 and all(isinstance(x, VList) for k_, x in enumerate(srcs) if k_ != 1))
+                if not neg_slab and (not isinstance(r, VUnknown) or srcs is None or len(srcs) != want_n or not all(isinstance(x, VList) for x in srcs)):
                     ck.undecided("C07.R1", inst, ssite, "the batches are not returned as zip(<%d comprehension-built lists>)" % want_n)
                     continue
                 pos_t, pos_r = batch_desc(srcs[0])
-                neg_t, neg_r = batch_desc(srcs[1])
+                neg_t, neg_r = batch_desc(srcs[1]) if not neg_slab else (None, None)
                 train = T.sym("train")
                 perms = [a for a in (pos_t.all_atoms() if pos_t is not None else []) if isinstance(a, T.App) and a.op == "randperm"]
                 ck.check(len(perms) == 1 and perms[0].args[0] == T.sym("N"), "C07.R1", inst + ":permutation of all N rows", ssite,
@@ -121,7 +133,17 @@ def run(ck):
                 else:
                     src, bound = train, T.sym("N")
                 ri = [a for a in (neg_t.all_atoms() if neg_t is not None else []) if isinstance(a, T.App) and a.op in ("randint", "randperm")]
-                if c["same"]:
+                if neg_slab:
+                    # all negative batches in one tensor (batch, row in the batch, site): rows of the source under a 2-D random index
+                    nt_ = srcs[1].term
+                    ri = [a for a in (nt_.all_atoms() if nt_ is not None else []) if isinstance(a, T.App) and a.op in ("randint", "randperm")]
+                    okn = (len(ri) == 1 and ri[0].op == "randint" and nt_ == T.app("index", src, (("adv", T.P(ri[0])),))) if _known(nt_) else None
+                    ck.check(okn, "C07.R4", inst + ":negative rows drawn from %s" % ("the all-Z rows" if c["bases"] else "the training rows"), ssite,
+                             "the tensor of negative batches is %r; expected rows of %s selected by random row indices" % (nt_, src))
+                    if len(ri) == 1 and ri[0].op == "randint":
+                        ck.check(ri[0].args[0] == bound, "C07.R4", inst + ":row indices within the source", ssite,
+                                 "negative row indices are drawn below %r, but the rows are taken from a tensor with %r rows" % (ri[0].args[0], bound))
+                elif c["same"]:
                     ck.check((neg_t == sliced(shuffled, pb)) if _known(neg_t) else None, "C07.R4", inst + ":negative rows are training rows", ssite, "negative batch is %r; expected the shuffled training rows" % (neg_t,))
                 else:
                     okn = len(ri) == 1 and ri[0].op == "randint" and neg_t == sliced(T.app("index", src, (("adv", T.P(ri[0])),)), nsz)
@@ -146,8 +168,10 @@ def run(ck):
     fit = prog.method("NeuralStateBase", "fit")
     fsite = fit.site()
     for cls in STATES:
-        for dkind in ("tensor", "ndarray", "list"):
+        for dkind in ("tensor", "ndarray", "list", "tensor/neg_batch_size given"):
             inst = "fit/%s/data:%s" % (cls, dkind)
+            neg_given = dkind.endswith("given")
+            dkind = dkind.split("/")[0]
             with ck.guard("C07.R5", inst, fsite):
                 def th(it):
                     s = make_state(it, cls)
@@ -158,6 +182,8 @@ def run(ck):
                     else:
                         data = it.new_list(None, origin="param:data")
                     kw = {"pos_batch_size": api.intsym("pb")}
+                    if neg_given:
+                        kw["neg_batch_size"] = api.intsym("nbs")  # an explicit negative batch size does not change how the data is cut
                     if cls != "PositiveWaveFunction":
                         kw["input_bases"] = api.bases_arr(it, "input_bases", "N")
                     call(it, s, "fit", data, **kw)
@@ -188,7 +214,7 @@ def run(ck):
                         else:
                             from .. import ints
 
-                            cc = ints.count_compare(nbt, want, {"N", "pb"}) if nbt is not None else None
+                            cc = ints.count_compare(nbt, want, {"N", "pb"} | (nbt.syms() & {"nbs"})) if nbt is not None else None
                             if cc is not None and cc[0] == "equal":
                                 ck.ok("C07.R6", inst + ":num_batches = ceil(N / pos_batch_size)", fsite, decided="equal to ceil(N / pb) for all N, pb in 1..13")
                             elif cc is not None:
@@ -202,7 +228,10 @@ def run(ck):
                         ts = argp(env, 4)
                         ck.check(isinstance(ts, VTens) and ts.term == T.sym("data") and ts.shape == ("N", "nv"), "C07.R3", inst + ":whole data set shuffled", fsite, "the tensor handed to the shuffler is not the training data")
                         nbs_ = num_term(argp(env, 2))
-                        ck.check(nbs_ == T.sym("pb"), "C07.R3", inst + ":neg_batch_size defaults to pos_batch_size", fsite, "default neg_batch_size is %r" % (nbs_,))
+                        if neg_given:
+                            ck.check(nbs_ == T.sym("nbs"), "C07.R3", inst + ":the given neg_batch_size is used", fsite, "the shuffler receives neg_batch_size %r" % (nbs_,))
+                        else:
+                            ck.check(nbs_ == T.sym("pb"), "C07.R3", inst + ":neg_batch_size defaults to pos_batch_size", fsite, "default neg_batch_size is %r" % (nbs_,))
                         if cls != "PositiveWaveFunction":
                             zs = argp(env, 6)
                             mask = T.app("all", T.app("cmp_Eq", T.sym("input_bases"), T.sym("lit:'Z'")), (-1,))
